@@ -21,11 +21,17 @@ where
 {
     trace(
         "primitive::comma_decimal",
-        take_while(1.., |c: <I as Stream>::Token| {
-            let c = c.as_char();
-            c.is_ascii_digit() || c == '-' || c == ',' || c == '.'
-        })
-        .try_map(str::parse),
+        // minus sign is only a part of the number at the beginning,
+        // otherwise `1-2` wouldn't be recognized as a subtraction.
+        (
+            take_while(0..=1, |c: <I as Stream>::Token| c.as_char() == '-'),
+            take_while(1.., |c: <I as Stream>::Token| {
+                let c = c.as_char();
+                c.is_ascii_digit() || c == ',' || c == '.'
+            }),
+        )
+            .take()
+            .try_map(str::parse),
     )
     .parse_next(input)
 }
